@@ -406,7 +406,9 @@ func init() {
 		})
 		base += int64(len(dtags))
 		// pass-through
-		hv := []string{"", "*", `"x"`, `"a\"b"`, "unquoted", `W/"x"`, `""`, `"é"`, `"x", "y"`}
+		hv := []string{"", "*", `"x"`, `"a\"b"`, "unquoted", `W/"x"`, `""`, `"é"`, `"x", "y"`,
+			// values that decode but are not spelled the way the encoder would spell them
+			`"\x41bc"`, "\"tab\\u0009\"", `"*"`}
 		r.Parallel(len(hv)*len(hv)*2, func(i int, s *engine.Shard) {
 			kind := []string{"caldav", "carddav"}[i%2]
 			im, inm := hv[(i/2)%len(hv)], hv[(i/2)/len(hv)]
